@@ -8,6 +8,7 @@ import (
 	"time"
 
 	coordinationv1 "k8s.io/api/coordination/v1"
+	apierrors "k8s.io/apimachinery/pkg/api/errors"
 	metav1 "k8s.io/apimachinery/pkg/apis/meta/v1"
 	"k8s.io/apimachinery/pkg/runtime"
 	k8sfake "k8s.io/client-go/kubernetes/fake"
@@ -40,7 +41,7 @@ func realTakeoverScenario(r *vkit.R, g *vkit.Rand, N int) {
 	const (
 		ns            = "kube-system"
 		lockName      = "verif-takeover"
-		leaseDuration = 3 * time.Second
+		leaseDuration = 10 * time.Second // only bounds how long a silent holder is trusted; the new holder renews every 0.5 s
 		renewDeadline = 1 * time.Second
 		retryPeriod   = 200 * time.Millisecond
 	)
@@ -54,6 +55,27 @@ func realTakeoverScenario(r *vkit.R, g *vkit.Rand, N int) {
 			mu.Lock()
 			gets[ga.GetName()]++
 			mu.Unlock()
+		}
+		return false, nil, nil
+	})
+	// The fake object tracker has no optimistic concurrency: a renewal the old holder had in flight when the lease was taken
+	// would silently overwrite the new holder (a real API server answers 409, the update carries a stale resourceVersion),
+	// and that election would then go on leading. Emulated here: an update that names this server while the lease names the
+	// other identity is a conflict.
+	leaseGVR0 := coordinationv1.SchemeGroupVersion.WithResource("leases")
+	kube.PrependReactor("update", "leases", func(a clienttesting.Action) (bool, runtime.Object, error) {
+		ua, ok := a.(clienttesting.UpdateAction)
+		if !ok {
+			return false, nil, nil
+		}
+		l, ok := ua.GetObject().(*coordinationv1.Lease)
+		if !ok || l.Spec.HolderIdentity == nil || *l.Spec.HolderIdentity != identity {
+			return false, nil, nil
+		}
+		if cur, err := kube.Tracker().Get(leaseGVR0, ns, l.Name); err == nil {
+			if cl, ok := cur.(*coordinationv1.Lease); ok && cl.Spec.HolderIdentity != nil && *cl.Spec.HolderIdentity == other {
+				return true, nil, apierrors.NewConflict(leaseGVR0.GroupResource(), l.Name, fmt.Errorf("the object has been modified"))
+			}
 		}
 		return false, nil, nil
 	})
